@@ -23,6 +23,7 @@ type Obligation struct {
 	Pos    string
 	Cover  bool // a cover query: prefix ∧ Reach must be SAT
 	enc    *fnEnc
+	NoAxioms bool
 	Extra  []string // extra assertions (known-finding class negation etc.)
 }
 
@@ -75,6 +76,7 @@ type fnEnc struct {
 	strLits  map[string]Term
 	ghostVars map[string]Term // ghost (function-level) variables
 	implFns   map[string]*types.Interface
+	embIDs    map[string]int
 
 	deferred map[*ssa.BasicBlock][]*ssa.Defer // not path sensitive: in order of appearance
 	curBlock *ssa.BasicBlock
@@ -473,7 +475,7 @@ func (e *fnEnc) zeroOfSort(s Sort, t types.Type) Term {
 	case s == SStr:
 		return e.strLit("")
 	case s == SAStr:
-		return e.declare("astr.empty", SAStr)
+		return e.astrLit("")
 	case s == SSlice:
 		return T(SSlice, "(mk-slice 0 0 0 0)")
 	case s == SIface:
@@ -599,6 +601,12 @@ func (e *fnEnc) heapGet(st *state, comp string, s Sort) Term {
 }
 
 func (e *fnEnc) heapSet(st *state, comp string, v Term) {
+	if len(v.S) > 60 {
+		// name the new version to keep terms small
+		nv := e.freshConst(comp, v.Sort)
+		e.assert(eq(nv, v))
+		v = nv
+	}
 	st.m[comp] = v
 	e.logMod(comp, v.Sort)
 }
@@ -612,21 +620,38 @@ func (e *fnEnc) embFun(si *structInfo, i int) string {
 	nm := sym(name)
 	if !e.declSeen[nm] {
 		e.declareFun(name, []Sort{SInt}, SInt)
-		inv := e.declareFun(name+".inv", []Sort{SInt}, SInt)
-		tagf := e.declareFun("embtag", []Sort{SInt}, SInt)
-		id := len(e.declSeen) + 1000
-		e.decls = append(e.decls, fmt.Sprintf(
-			"(assert (forall ((x Int)) (! (and (= (%s (%s x)) x) (= (%s (%s x)) %d) (< (%s x) 0)) :pattern ((%s x)))))",
-			inv, nm, tagf, nm, id, nm, nm))
+		e.declareFun(name+".inv", []Sort{SInt}, SInt)
+		e.declareFun("embtag", []Sort{SInt}, SInt)
+		e.embIDs[nm] = len(e.embIDs) + 1
 	}
 	return nm
+}
+
+// embApp builds the address of an inline struct field and records the ground
+// instance of the injectivity/disjointness facts for it (interior addresses are
+// negative, roots positive, nil is 0).
+func (e *fnEnc) embApp(si *structInfo, i int, obj Term) Term {
+	f := e.embFun(si, i)
+	t := app(SInt, f, obj)
+	key := "embapp:" + t.S
+	if !e.declSeen[key] {
+		e.declSeen[key] = true
+		inv := sym("emb." + si.name + "." + si.fields[i].name + ".inv")
+		fact := and(eq(app(SInt, inv, t), obj), eq(app(SInt, "embtag", t), intLit(int64(e.embIDs[f]))), lt(t, intLit(0)))
+		if strings.Contains(obj.S, "q.") || strings.Contains(obj.S, "r.") {
+			// argument mentions a bound variable: no ground instance possible
+		} else {
+			e.assertGlobal(fact)
+		}
+	}
+	return t
 }
 
 // loadField reads obj.field where obj is a reference to a struct of type si.
 func (e *fnEnc) loadField(st *state, si *structInfo, obj Term, i int) Term {
 	f := si.fields[i]
 	if f.embStruct {
-		sub := app(SInt, e.embFun(si, i), obj)
+		sub := e.embApp(si, i, obj)
 		return e.loadStruct(st, e.structOf(f.typ), sub)
 	}
 	comp, s := e.fieldComp(si, i)
@@ -636,7 +661,7 @@ func (e *fnEnc) loadField(st *state, si *structInfo, obj Term, i int) Term {
 func (e *fnEnc) storeField(st *state, si *structInfo, obj Term, i int, v Term) {
 	f := si.fields[i]
 	if f.embStruct {
-		sub := app(SInt, e.embFun(si, i), obj)
+		sub := e.embApp(si, i, obj)
 		e.storeStruct(st, e.structOf(f.typ), sub, v)
 		return
 	}
